@@ -99,6 +99,7 @@ def run(tier):
     cap = None if thorough else 32
     # a) terminate at every EBP, iterator consumer
     cases, _ = lp.run_matrix(tier, lp.PERSISTENT, [], scens, 'c06t', extra_repeats=rep, per_class_cap=cap)
+    lp.require_classes(chk, cases, lp.PERSISTENT, 'terminate-matrix')
     for c in cases:
         dg = lp.digest(c)
         if dg['point'] is None:
@@ -109,6 +110,7 @@ def run(tier):
         judge(chk, c, mech_of(dg, 'terminate'))
     # b) terminate at every EBP, multiplexing consumer on a caller-supplied Pipe (as the Pool does)
     cases, _ = lp.run_matrix(tier, lp.PERSISTENT, [], ['p3'] if not thorough else ['p1', 'p3'], 'c06m', extra_repeats=rep, per_class_cap=cap, spec_extra={'mux': True})
+    lp.require_classes(chk, cases, lp.PERSISTENT, 'mux-terminate-matrix')
     for c in cases:
         dg = lp.digest(c)
         if dg['point'] is None:
